@@ -726,3 +726,18 @@ Proof.
   - unfold header_ok, no_space. cbn. repeat split; intros H; repeat (destruct H as [H|H]; [discriminate H|]); exact H.
   - split; [cbn; lia|]. split; [apply valid_iff_lemma; reflexivity|]. split; [vm_compute; reflexivity|]. split; reflexivity.
 Qed.
+
+(* a message is passed exactly when it has the accepted form *)
+Lemma passed_iff_lemma : forall cfg cnt input,
+  cfg_ok cfg ->
+  ((exists r cnt', parse cfg cnt input = (Ok (Some r), cnt')) <->
+   ((32 <= length input)%nat /\
+    exists lit n h msg, input = render_with lit h msg /\ int_literal lit n /\ (0 <= n <= 191)%Z /\ header_ok h)).
+Proof.
+  intros cfg cnt input Hc. split.
+  - intros [r [cnt' H]]. destruct (passed_only_wellformed_lemma cfg cnt input r cnt' Hc H)
+      as [lit [n [h [msg [log [E [Hl [Hn [Hh [Hlen _]]]]]]]]]].
+    split; [exact Hlen|]. exists lit, n, h, msg. split; [exact E|]. split; [exact Hl|]. split; [exact Hn|exact Hh].
+  - intros [Hlen [lit [n [h [msg [E [Hl [Hn Hh]]]]]]]]. subst input.
+    eexists. eexists. apply (parse_render_gen cfg cnt lit n h msg); assumption.
+Qed.
